@@ -145,6 +145,45 @@ def noallocFormat (stack : Bytes) (level : Nat) (subject msg ts tid : Bytes) : E
     { total := MAXIMUM_NO_ALLOC_LOG_LINE_SIZE, level := level, subject := some subject, msg := msg, ts := ts, tid := tid }
   pure (lineOf r)
 
+/-! ### log subject names (`aws_log_subject_name`, `s_get_log_subject_info_by_id`, registration)
+
+`s_log_subject_slots[AWS_PACKAGE_SLOTS]` holds one registered list per package slot; a list is its names (its count is
+their number).  The range guard, the slot, the index inside the slot and the bound test are the GENERATED
+`s_subject_too_big`, `s_subject_slot`, `s_subject_index`, `s_subject_index_rejected`; the pointer part is by hand:
+reading `subject_list[index]` with `index ≥ count` is a fault (`oob`), never an outcome of the C code as it stands. -/
+
+abbrev Slots := Nat → Option (List Bytes)
+
+inductive SubjectRes where
+  | entry (name : Bytes)
+  | unknown                      -- NULL: aws_log_subject_name answers "Unknown"
+  | oob (index count : Nat)      -- model fault: read behind the registered list
+deriving Repr, DecidableEq
+
+def subjectLookup (slots : Slots) (subject : Nat) : SubjectRes :=
+  if s_subject_too_big subject then .unknown else
+  match slots (s_subject_slot subject) with
+  | none => .unknown
+  | some names =>
+    if s_subject_index_rejected (s_subject_index subject) names.length then .unknown
+    else match names[s_subject_index subject]? with
+      | some n => .entry n
+      | none => .oob (s_subject_index subject) names.length
+
+def unknownSubject : Bytes := [85, 110, 107, 110, 111, 119, 110]   -- "Unknown"
+
+/-- `aws_log_subject_name`; `none` only for the model fault -/
+def subjectName (slots : Slots) (subject : Nat) : Option Bytes :=
+  match subjectLookup slots subject with
+  | .entry n => some n
+  | .unknown => some unknownSubject
+  | .oob _ _ => none
+
+/-- `aws_register_log_subject_info_list`: the slot is that of the first entry's id (the process is killed for a slot
+≥ AWS_PACKAGE_SLOTS; callers here stay below) -/
+def registerSubjects (slots : Slots) (firstId : Nat) (names : List Bytes) : Slots :=
+  fun i => if i = s_subject_slot firstId then some names else slots i
+
 /-! ### level gate and pipeline logger -/
 
 /-- `AWS_LOGF`: `logger->vtable->get_log_level(logger, subject) >= log_level` -/
@@ -288,16 +327,18 @@ structure Sys where
   -- ghost
   logged : List Line           -- the line each completed fwrite was meant to write
   writers : List Nat           -- the thread that performed each fwrite
+  failed : List Line           -- calls whose fwrite failed (nothing reached the file; the call returns AWS_OP_ERR)
   returned : List Line         -- calls that have returned
 
 def Sys.init : Sys :=
-  { mutex := none, pcs := fun _ => .idle, count := fun _ => 0, bufs := fun _ => none, file := [], logged := [], writers := [], returned := [] }
+  { mutex := none, pcs := fun _ => .idle, count := fun _ => 0, bufs := fun _ => none, file := [], logged := [], writers := [], failed := [], returned := [] }
 
 def setPc (s : Sys) (t : Nat) (pc : Pc) : Sys := { s with pcs := fun i => if i = t then pc else s.pcs i }
 
 inductive Act where
   | startLog (t : Nat)     -- an accepted call: aws_format_standard_log_line into the call's buffer
   | thread (t : Nat)
+  | writeFails (t : Nat)   -- the fwrite of thread t fails (disk full, closed pipe): error raised, then the SAME unlock
 deriving Repr, DecidableEq
 
 def step (s : Sys) : Act → Option Sys
@@ -314,6 +355,11 @@ def step (s : Sys) : Act → Option Sys
     | .lock l => if s.mutex = none then some { (setPc s t (.write l)) with mutex := some t } else none
     | .write l => some { (setPc s t (.unlock l)) with file := s.file ++ [s.bufs t], logged := s.logged ++ [l], writers := s.writers ++ [t] }
     | .unlock l => some { (setPc s t .idle) with mutex := none, returned := s.returned ++ [l] }
+  | .writeFails t =>
+    -- `write_result = AWS_OP_ERR` and control continues to aws_mutex_unlock: a failed write does not keep the lock
+    match s.pcs t with
+    | .write l => some { (setPc s t (.unlock l)) with failed := s.failed ++ [l] }
+    | _ => none
 
 inductive Reachable : Sys → Prop where
   | init : Reachable Sys.init
